@@ -1,6 +1,8 @@
 package checks
 
 import (
+	"crypto/sha256"
+	"encoding/hex"
 	"fmt"
 	"net/http"
 	"sort"
@@ -70,7 +72,16 @@ var c03Layouts = []cookieLayout{
 	{"space-before-equals", func(s string) []string { return []string{"Cookie: a=1; " + strings.Replace(s, "=", " =", 1) + "; b=2"} }, [][2]string{{"a", "1"}, {"b", "2"}}},
 	{"tab-before-equals", func(s string) []string { return []string{"Cookie: a=1; " + strings.Replace(s, "=", "\t=", 1)} }, [][2]string{{"a", "1"}}},
 	{"value-with-equals", func(s string) []string { return []string{"Cookie: tok=abc==; " + s + "; csrf=x=y"} }, [][2]string{{"tok", "abc=="}, {"csrf", "x=y"}}},
+	// the session cookie next to a piece that is not a well-formed cookie (what becomes of that piece is not
+	// judged; the session cookie must not arrive, the well-formed neighbours must)
+	{"next-to-unbalanced-quote", func(s string) []string { return []string{`Cookie: a=1; bad="unbalanced; ` + s + "; b=2"} }, [][2]string{{"a", "1"}, {"b", "2"}}},
+	{"next-to-bare-token", func(s string) []string { return []string{"Cookie: a=1; justatoken; " + s} }, [][2]string{{"a", "1"}}},
+	{"trailing-semicolon", func(s string) []string { return []string{"Cookie: a=1; " + s + ";"} }, [][2]string{{"a", "1"}}},
+	{"next-to-backslash-value", func(s string) []string { return []string{`Cookie: a=1; p=C:\dir; ` + s} }, [][2]string{{"a", "1"}}},
 }
+
+// layouts with a malformed piece: the upstream may or may not receive something for that piece
+var c03MalformedPiece = map[string]string{"next-to-unbalanced-quote": "bad", "next-to-bare-token": "justatoken", "next-to-backslash-value": "p"}
 
 const hostP = "preflight.sso.test"
 const hostU = "unsigned.sso.test"
@@ -247,6 +258,9 @@ func c03Run(c *fw.Ctx) {
 				viol("session-cookie-forwarded/"+layout.Name, "a cookie named "+harness.CookieName+" reached the upstream")
 				continue
 			}
+			if ck.Name == c03MalformedPiece[layout.Name] {
+				continue
+			}
 			got = append(got, [2]string{ck.Name, ck.Value})
 		}
 		if cookieSet(got) != cookieSet(layout.Other) {
@@ -284,8 +298,13 @@ func c03Run(c *fw.Ctx) {
 		cookieGroups := [][]string{{"eng", "ops"}, {"eng"}, {"eng", "oncall"}, nil}[x.Choose("cookie-groups", 4)]
 		nowGroups := [][]string{{"eng"}, {"eng", "oncall"}, {"oncall"}}[x.Choose("groups-now", 3)]
 		clientHdr := []string{"", "X-Forwarded-Groups: admins", "x-forwarded-groups: admins\r\nX-Forwarded-Email: root@sso.test\r\nX-Forwarded-User: root"}[x.Choose("client-headers", 3)]
+		// an ordinary session, or one whose tokens are as long as real JWTs (a sealed value beyond 4096 bytes)
+		large := x.Choose("session-size", 2) == 1
 		cp := *sess
 		cp.Groups = cookieGroups
+		if large {
+			cp.AccessToken, cp.RefreshToken = c03LongToken("access", 2600), c03LongToken("refresh", 1700)
+		}
 		if due == "revalidation-due" {
 			cp.ValidDeadline = harness.At(-time.Second)
 		} else {
@@ -350,11 +369,55 @@ func c03Run(c *fw.Ctx) {
 		if got := resp.Hits[0].Header["X-Forwarded-Access-Token"]; len(got) > 0 {
 			viol("access-token-when-disabled/"+due, fmt.Sprintf("pass_access_token is off but the upstream received X-Forwarded-Access-Token: %q", got))
 		}
-		c.Res.Outcome(fmt.Sprintf("round-trip|%s|%v|%v|%v|%d", due, cookieGroups, now.Groups, clientHdr != "", len(resp.Hits)))
+		// the browser comes back with every cookie this response set: none of what the proxy issued may reach
+		// the upstream, in one piece or in several
+		var issued []string
+		var issuedValues []string
+		for _, ck := range resp.Cookies {
+			if ck.Value != "" {
+				issued = append(issued, ck.Name+"="+ck.Value)
+				issuedValues = append(issuedValues, ck.Value)
+			}
+		}
+		if len(issued) > 0 {
+			raw2 := "GET /private/next HTTP/1.1\r\nHost: " + hostA + "\r\nCookie: theme=dark; " + strings.Join(issued, "; ") + "\r\nConnection: close\r\n\r\n"
+			resp2, err := e.DoRaw(raw2)
+			if err != nil {
+				panic(explore.HarnessError{Msg: "raw request failed: " + err.Error()})
+			}
+			detail["follow_up_status"], detail["cookies_issued"] = resp2.Status, len(issued)
+			if len(resp2.Hits) != 1 {
+				viol("follow-up-not-forwarded/"+due, fmt.Sprintf("the follow-up request carrying the cookies just issued was answered %d and reached the backend %d times", resp2.Status, len(resp2.Hits)))
+			} else {
+				c.Res.Count("positive_follow_up_forwarded", 1)
+				fwd := strings.Join(resp2.Hits[0].Header["Cookie"], "; ")
+				for i, v := range issuedValues {
+					if len(v) >= 16 && strings.Contains(fwd, v) {
+						viol("issued-cookie-forwarded", fmt.Sprintf("the value of cookie #%d of the %d the proxy issued on the previous response reached the upstream (session sealed size: large=%v)", i+1, len(issued), large))
+						break
+					}
+				}
+				if !strings.Contains(fwd, "theme=dark") {
+					viol("other-cookie-changed/follow-up", "the application's own cookie did not reach the upstream on the follow-up request")
+				}
+			}
+		}
+		c.Res.Outcome(fmt.Sprintf("round-trip|%s|%v|%v|%v|%d|large=%v|issued=%d", due, cookieGroups, now.Groups, clientHdr != "", len(resp.Hits), large, len(issued)))
 		if c.Replay != nil {
 			c.Res.Note("%v", detail)
 		}
 	})
+}
+
+// c03LongToken returns n characters that do not compress (a hash chain), like a signed token.
+func c03LongToken(seed string, n int) string {
+	var sb strings.Builder
+	h := sha256.Sum256([]byte(seed))
+	for sb.Len() < n {
+		sb.WriteString(hex.EncodeToString(h[:]))
+		h = sha256.Sum256(h[:])
+	}
+	return sb.String()[:n]
 }
 
 func cookieSet(l [][2]string) string {
@@ -371,10 +434,10 @@ func init() {
 		ID:    "C03",
 		Level: "exploration",
 		Rule: "full product, as raw HTTP/1.1 bytes to a real net/http server in front of the real proxy chain, recorded at a backend behind the real reverse proxy: " +
-			"for each of the four identity headers a client variant {absent, canonical, lower-case sent twice (thorough: mixed case, empty value)} x 12 Cookie header layouts (session cookie name followed by a space / a tab before '=', session cookie only/first/middle/last, two session cookies, prefix and suffix look-alike names, quoted values, separate Cookie lines, no space, '=' in values) " +
+			"for each of the four identity headers a client variant {absent, canonical, lower-case sent twice (thorough: mixed case, empty value)} x 16 Cookie header layouts (the session cookie next to a malformed piece: unbalanced quote, bare token, trailing semicolon, backslash value; session cookie name followed by a space / a tab before '=', session cookie only/first/middle/last, two session cookies, prefix and suffix look-alike names, quoted values, separate Cookie lines, no space, '=' in values) " +
 			"x handling {authenticated, skip-auth path, CORS preflight (OPTIONS) on an upstream that lets preflights through, authenticated on an upstream with skip_request_signing, /favicon.ico matched by a skip-auth pattern} x session groups {two, none} x Connection header {plain, nominating identity headers} x inject_request_headers {none, unrelated, colliding with an identity header}; " +
 			"oracle at the backend: authenticated => the three identity headers exactly once with the session's values and no access-token header (option off); skip-auth and preflight => all four absent; the session cookie never arrives; every other cookie arrives with the same name and value; " +
-			"second scenario after-provider-round-trip: session due for {revalidation, refresh} x cookie groups {4} x groups the authenticator now reports {3} x client identity headers {none, forged groups, forged all}: the three identity headers at the backend equal the session the proxy stored in the cookie it re-issued on that very request; " +
+			"second scenario after-provider-round-trip: session due for {revalidation, refresh} x cookie groups {4} x groups the authenticator now reports {3} x client identity headers {none, forged groups, forged all} x session size {ordinary, JWT-sized tokens: sealed value beyond 4096 bytes}: the three identity headers at the backend equal the session the proxy stored in the cookie it re-issued on that very request, and a follow-up request carrying every cookie that response set is forwarded without any of them; " +
 			"distinct_nontrivial = distinct (handling, layout, inject, connection, client header variants) cases that were forwarded",
 		Assumptions:    []string{"pass_access_token cannot be enabled through the YAML options (parseOptionsConfig does not copy it), so only the 'disabled' half of that clause is exercised", "preflight skipping likewise cannot be configured"},
 		Parallel:       true,
